@@ -37,6 +37,7 @@
 #include <fcppt/enum/make_range.hpp>
 #include <fcppt/enum/make_range_start.hpp>
 #include <fcppt/enum/make_range_start_end.hpp>
+#include <fcppt/enum/size_type_impl.hpp>
 #include <fcppt/enum/range_impl.hpp>
 #include <fcppt/iterator/adapt_range.hpp>
 #include <fcppt/iterator/base_impl.hpp>
@@ -501,6 +502,24 @@ struct scoped_enum
     fcppt_maximum = N - 1
   };
 };
+// an enum that fills uint8_t AND says so: fcppt::enum_::size_type_impl is specialised to a wider counting type, so that
+// size<E> = 256 and the whole range are representable (the customisation point a user of such an enum would reach for)
+enum class wide256 : std::uint8_t
+{
+  first = 0,
+  fcppt_maximum = 255
+};
+}
+namespace fcppt::enum_
+{
+template <>
+struct size_type_impl<wide256>
+{
+  using type = unsigned;
+};
+}
+namespace
+{
 // plain enums with named enumerators (no fixed underlying type: -fsanitize=enum guards the value range)
 struct named1 { enum type { a, fcppt_maximum = a }; };
 struct named2 { enum type { a, b, fcppt_maximum = b }; };
@@ -651,6 +670,7 @@ void enum_ranges_all()
   // is not a value of the type (it wraps to 0)
   std::vector<unsigned> const pts8{0, 1, 2, 127, 128, 129, 250, 253, 254, 255};
   enum_ranges<typename scoped_enum<std::uint8_t, 256>::type, 256>("scoped<u8,256>(full width)", pts8);
+  enum_ranges<wide256, 256>("wide256(u8, size_type_impl -> unsigned)", pts8);
   std::vector<unsigned> const pts7{0, 1, 2, 63, 64, 120, 125, 126, 127};
   enum_ranges<typename scoped_enum<std::int8_t, 128>::type, 128>("scoped<i8,128>(full positive width)", pts7);
   std::vector<unsigned> const pts16{0, 1, 255, 256, 32767, 32768, 65530, 65534, 65535};
